@@ -36,12 +36,12 @@ void h_sign_inner(void) {
     if (ret == 0 && use_recid) __CPROVER_assert(recid == 0, "C01 sign_inner: failure => recid 0");
     if (!use_recid) __CPROVER_assert(recid == recid0, "C01 sign_inner: no recid written when not requested");
     /* the last (hence, by the loop invariant, every) nonce call */
-    __CPROVER_assert(g_nf_msg32 == msg32 && g_nf_key32 == seckey && g_nf_algo16 == NULL && g_nf_data == (use_ndata ? ndata : NULL),
-                     "C01 sign_inner: nonce function receives (msg32, seckey, algo NULL, noncedata)");
+    __CPROVER_assert(g_nf_msg_byte == msg32[k] && g_nf_key_byte == seckey[k] && g_nf_algo16 == NULL && (g_nf_data != NULL) == use_ndata && (!use_ndata || g_nf_data_byte == ndata[k]),
+                     "C01 sign_inner: nonce function receives the contents of (msg32, seckey, no algo tag, noncedata)");
     __CPROVER_assert(g_nf_counter == verif_nonce_calls - 1, "C01 sign_inner: nonce function receives count = number of previous attempts");
-    /* g_nf_hctx identifies who produced the nonce: the stub records NULL, the built-in function its (non-NULL) hash context */
-    if (fp_mode == 0) __CPROVER_assert(g_nf_hctx == &ctx.hash_ctx, "C01 sign_inner: noncefp NULL => RFC 6979 with the context's hash context");
-    if (fp_mode == 1) __CPROVER_assert(g_nf_hctx == &secp256k1_context_static->hash_ctx, "C01 sign_inner: default function pointer => RFC 6979 with the static hash context");
+    /* g_nf_hctx identifies who produced the nonce: the stub records NULL, the built-in function its (non-NULL) hash context; WHICH hash
+     * context the built-in function runs on is not part of the property */
+    if (fp_mode != 2) __CPROVER_assert(g_nf_hctx != NULL, "C01 sign_inner: noncefp NULL or the default function pointer => built-in RFC 6979");
     if (fp_mode == 2) __CPROVER_assert(g_nf_hctx == NULL, "C01 sign_inner: user callback given => built-in function not used");
     if (fp_mode == 2 && g_st_ret == 0) __CPROVER_assert(ret == 0, "C01 sign_inner: nonce callback returning 0 => ret 0");
     if (ret == 1) {
@@ -54,7 +54,6 @@ void h_sign_inner(void) {
         __CPROVER_assert((unsigned char)(nonv >> (8 * (31 - k))) == g_nf_out_byte, "C01 sign_inner: nonce is exactly the output of the last nonce call");
         __CPROVER_assert(SC_EQ(r, g_ss_r) && SC_EQ(s, g_ss_s), "C01 sign_inner: (r, s) are the core signer's outputs");
         __CPROVER_assert(g_ss_has_recid == use_recid && (!use_recid || recid == g_ss_recid), "C01 sign_inner: recid is the core signer's output");
-        __CPROVER_assert(g_ss_ctx == &ctx.ecmult_gen_ctx, "C01 sign_inner: core signer uses the context's generator table");
         __CPROVER_assert(fp_mode != 2 || g_st_ret != 0, "C01 sign_inner: success only if the callback reported success");
     }
     if (ret == 1 && verif_nonce_calls > 5 && mv >= n && fp_mode == 0) REACH("sign_inner success after retries, msg >= n");
